@@ -152,6 +152,9 @@ XEsc(c, style, inAttr) ==
   ELSE IF c = 13 THEN <<38, 35, 49, 51, 59>>                  \* a literal CR would be normalised away
   ELSE IF inAttr /\ c = style.quote THEN (IF c = 34 THEN <<38, 113, 117, 111, 116, 59>> ELSE <<38, 97, 112, 111, 115, 59>>)
   ELSE IF inAttr /\ c \in {9, 10} THEN <<38, 35>> \o (IF c = 9 THEN <<57>> ELSE <<49, 48>>) \o <<59>>
+  \* a line break in character data may be written as LF, CR LF or CR: every parser normalises them to LF (XML 1.0 section 2.11)
+  ELSE IF c = 10 /\ ~inAttr /\ "eol" \in DOMAIN style /\ style.eol = 1 THEN <<13, 10>>
+  ELSE IF c = 10 /\ ~inAttr /\ "eol" \in DOMAIN style /\ style.eol = 2 THEN <<13>>
   ELSE <<c>>
 RECURSIVE XEscAll(_, _, _, _)
 XEscAll(s, style, inAttr, i) == IF i > Len(s) THEN <<>> ELSE XEsc(s[i], style, inAttr) \o XEscAll(s, style, inAttr, i + 1)
@@ -164,8 +167,9 @@ XTextOf(s, style) ==
   THEN <<60, 33, 45, 45, 32, 99, 32, 45, 45, 62>> \o <<60, 33, 91, 67, 68, 65, 84, 65, 91>> \o s \o <<93, 93, 62>>
   ELSE XEscAll(s, style, FALSE, 1)
 
+XEol(style) == IF "eol" \in DOMAIN style /\ style.eol = 1 THEN <<13, 10>> ELSE IF "eol" \in DOMAIN style /\ style.eol = 2 THEN <<13>> ELSE <<10>>
 XIndent(style, depth) ==
-  IF style.indent = 0 THEN <<>> ELSE <<10>> \o (IF style.indent < 0 THEN [i \in 1..depth |-> 9] ELSE [i \in 1..(depth * style.indent) |-> 32])
+  IF style.indent = 0 THEN <<>> ELSE XEol(style) \o (IF style.indent < 0 THEN [i \in 1..depth |-> 9] ELSE [i \in 1..(depth * style.indent) |-> 32])
 
 RECURSIVE XRenderEl(_, _, _), XRenderKids(_, _, _, _), XRenderAttrs(_, _, _)
 XRenderAttrs(attrs, style, i) ==
